@@ -445,7 +445,12 @@ def free_running(t):
 def dispatch(chunk):
     t = Tally()
     for kind, job in chunk:
-        t.merge(hist_work(job) if kind == "hist" else sched_work([job]))
+        if kind == "hist":
+            t.merge(hist_work(job))
+        else:
+            # schedules execute library code in-process: keep the pool worker pristine (history children are forked
+            # from it) by running them in a child of their own
+            t.merge(in_fork(lambda: sched_work([job])))
     return t
 
 
